@@ -16,7 +16,7 @@ THEOREMS = ["subslice_spec", "subslice_wf", "copy_spec", "copyArray_memmove", "a
             "clone_deep", "copy_in_place", "no_sharing", "value_semantics_partial", "cloneAt_newLocation",
             "value_semantics", "no_sharing_cloneAt", "after_repair_witnesses",
             "ptr_identity", "ptr_eq_iff", "ptr_wf_preserved", "alias_semantics", "inplace_assignment_keeps_pointers",
-            "bound_receiver_rule", "before_repair_growslice", "before_repair_box", "before_repair_range", "before_repair_boundCall",
+            "bound_receiver_rule", "arg_passing_copies", "before_repair_growslice", "before_repair_box", "before_repair_range", "before_repair_boundCall",
             "before_repair_ifaceCall"]
 
 SIG_GROW = "C07 append-realloc elem=struct|array element-objects-shared-with-old-array"
@@ -464,25 +464,97 @@ def gen_probe(pid, rng, types, forced=None):
         pr.dump(T, xval); M.append("dump:0")
         pr.dump(U, "y"); M.append("dump:1")
     elif ctx == "arg":
-        M.append("bind:arg:0/%s" % pstr(p))
-        inner = []
-        if rng.random() < 0.3:
-            # deferred call: arguments are evaluated (copied) at the defer statement
-            B.append("func() {")
-            B.append("defer func(y %s) {" % Ugo)
-            pr.dump(U, "y")
-            B.append("}(%s)" % xs)
-            B.append(mutx)
-            B.append("}()")
-            M.append(mutx_m); M.append("dump:1")
+        # parameter passing copies for EVERY syntactic form of the argument expression and every kind of callee
+        Tgo = T["go"]
+        pxe = "px" if place == "ptr" else "&" + x
+        sx = (x + sel(T, p)) if p else xval
+        forms = ["plain", "paren", "deref", "conv", "convnamed", "closure-result", "func-result-ptr", "id-result", "generic-id", "lit"]
+        if place == "global":
+            forms.append("func-result-global")
+        if T["named"]:
+            forms.append("method-result")
+        form = rng.choice(forms)
+        PT = Ugo
+        pre, mexpr, yslot = [], "0/%s" % pstr(p), 1
+        if form == "plain":
+            A = sx
+        elif form == "paren":
+            A = "(%s)" % sx
+        elif form == "deref":
+            B.append("qa := &%s" % sx)
+            A, mexpr = "*qa", "deref>0/%s" % pstr(p)
+        elif form == "conv":
+            A = "%s(%s)" % (Ugo if U["named"] else "(" + Ugo + ")", sx)
+            if rng.random() < 0.5:
+                A = "(%s)(%s)" % (Ugo, sx)
+            mexpr = "conv>0/%s" % pstr(p)
+        elif form == "convnamed":
+            pr.top.append("type C%d %s" % (pid, Ugo))
+            PT = "C%d" % pid
+            A, mexpr = "C%d(%s)" % (pid, sx), "conv>0/%s" % pstr(p)
+        elif form == "closure-result":
+            A, mexpr = "func() %s { return %s }()" % (Ugo, sx), "result>0/%s" % pstr(p)
+        elif form == "func-result-global":
+            pr.top.append("func retg%d() %s { return %s }" % (pid, Ugo, sx))
+            A, mexpr = "retg%d()" % pid, "result>0/%s" % pstr(p)
+        elif form == "func-result-ptr":
+            pr.top.append("func fld%d(q *%s) %s { return %s }" % (pid, Tgo, Ugo, ("q" + sel(T, p)) if p else "*q"))
+            A, mexpr = "fld%d(%s)" % (pid, pxe), "result>0/%s" % pstr(p)
+        elif form == "method-result":
+            pr.top.append("func (q *%s) get%d() %s { return %s }" % (Tgo, pid, Ugo, ("q" + sel(T, p)) if p else "*q"))
+            A, mexpr = "(%s).get%d()" % (pxe, pid), "result>0/%s" % pstr(p)
+        elif form == "id-result":
+            pr.top.append("func idr%d(v %s) %s { return v }" % (pid, Ugo, Ugo))
+            A, mexpr = "idr%d(%s)" % (pid, sx), "result>arg>0/%s" % pstr(p)
+        elif form == "generic-id":
+            pr.top.append("func gid%d[V any](v V) V { return v }" % pid)
+            A, mexpr = "gid%d(%s)" % (pid, sx), "result>arg>0/%s" % pstr(p)
+        else:
+            A = golit(U, 500)
+            pre.append("decl:" + token(U))
+            for i2, (lp, lt) in enumerate(leaves(U)):
+                pre.append("set:1:%s:%d" % (pstr(lp), 500 + i2 + 1))
+            mexpr, yslot = "1/_", 2
+        M.extend(pre)
+        M.append("bind:arg:" + mexpr)
+        callee = rng.choice(["closure", "func", "method", "variadic", "defer", "go"])
+        pr.ctx = "arg"
+        mutx_px = "px%s = %s" % (sel(T, p + q1), setv(l1, 100))
+        if callee in ("defer", "go"):
+            body = []
+            pr.dump(U, "y", out=body)
+            body.append("y%s = %s" % (sel(U, q2), setv(l2, 200)))
+            body.append("done <- true")
+            pr.top.append("func dg%d(y %s, done chan bool) {\n%s\n}" % (pid, PT, "\n".join(body)))
+            B.append("done := make(chan bool, 2)")
+            if callee == "defer":
+                B.append("func() {\ndefer dg%d(%s, done)\n%s\n}()" % (pid, A, mutx))
+            else:
+                B.append("go dg%d(%s, done)" % (pid, A))
+                B.append(mutx)
+                B.append("<-done")
+            M.append(mutx_m); M.append("dump:%d" % yslot); M.append("set:%d:%s:200" % (yslot, pstr(q2)))
             pr.dump(T, xval); M.append("dump:0")
         else:
-            B.append("func(y %s) {" % Ugo)
-            B.append(mutx); M.append(mutx_m)
-            muty("y", 1)
-            pr.dump(T, xval); M.append("dump:0")
-            pr.dump(U, "y"); M.append("dump:1")
-            B.append("}(%s)" % xs)
+            yv = "ys[0]" if callee == "variadic" else "y"
+            body = [mutx if callee == "closure" else mutx_px]
+            body.append("%s%s = %s" % (yv, sel(U, q2), setv(l2, 200)))
+            pr.dump(T, xval if callee == "closure" else "(*px)", out=body)
+            pr.dump(U, yv, out=body)
+            M.append(mutx_m); M.append("set:%d:%s:200" % (yslot, pstr(q2)))
+            M.append("dump:0"); M.append("dump:%d" % yslot)
+            if callee == "closure":
+                B.append("func(y %s) {\n%s\n}(%s)" % (PT, "\n".join(body), A))
+            elif callee == "func":
+                pr.top.append("func cal%d(y %s, px *%s) {\n%s\n}" % (pid, PT, Tgo, "\n".join(body)))
+                B.append("cal%d(%s, %s)" % (pid, A, pxe))
+            elif callee == "method":
+                pr.top.append("type R%d struct{}\nfunc (R%d) m(y %s, px *%s) {\n%s\n}" % (pid, pid, PT, Tgo, "\n".join(body)))
+                B.append("R%d{}.m(%s, %s)" % (pid, A, pxe))
+            else:
+                pr.top.append("func vr%d(px *%s, ys ...%s) {\n%s\n}" % (pid, Tgo, PT, "\n".join(body)))
+                B.append("vr%d(%s, %s)" % (pid, pxe, A))
+        pr.argform = form + "/" + callee
     elif ctx == "rangeValue":
         parent = p[:-1]
         pe = (x + sel(T, parent)) if parent else xval
@@ -873,7 +945,7 @@ def gen_probe(pid, rng, types, forced=None):
     return pr
 
 
-CONTEXTS = ["define", "arg", "rangeValue", "rangeOperand", "send", "mapStore", "litElem", "box", "recvValue", "methodValue", "ifaceCall",
+CONTEXTS = ["define", "arg", "arg", "arg", "rangeValue", "rangeOperand", "send", "mapStore", "litElem", "box", "recvValue", "methodValue", "ifaceCall",
             "assign", "ptrStore", "elemStore", "fieldStore", "reassign", "reassign", "boundRecv", "boundRecv"]
 
 
@@ -1273,6 +1345,9 @@ def program_tie(chk, tier):
                 got, want = jsp.get(key, []), natp.get(key, [])
                 nprobes += 1
                 chk.add_case("program:" + v, "%s|%d|%s" % (j["id"], pr.id, v), kindkey="probe:%s:%s" % (v, pr.ctx))
+                if getattr(pr, "argform", None) and v == "plain":
+                    chk.count("argform:" + pr.argform.split("/")[0])
+                    chk.count("argcallee:" + pr.argform.split("/")[1])
                 src = "func probe%d() {\n\t%s\n}\n%s" % (pr.id, "\n\t".join(pr.body), "\n".join(pr.top))
                 pred_js = getattr(pr, "pred_js", None)
                 pred_go = getattr(pr, "pred_go", None)
@@ -1320,6 +1395,8 @@ EXPECTED_SITES = {
     ("statements.go", "translateAssign", "$clone("): 1,                                   # define
     ("statements.go", "translateAssign", ".copy("): 1,                                    # assign (in place)
     ("utils.go", "translateArgs", "translateImplicitConversionWithCloning"): 1,          # arg
+    # translateArgs: EVERY argument is cloned, unconditionally (no per-form shortcut)
+    ("utils.go", "translateArgs", "arg-translation: translateImplicitConversionWithCloning(argExpr, sigTypes.Param(i, ellipsis)) <= "): 1,
     # makeReceiver: the receiver copy is decided by the METHOD's declared receiver type, not by the operand's type
     ("expressions.go", "makeReceiver", "receiver-clone-by: methodsRecvType"): 1,
     ("expressions.go", "makeReceiver", "receiver-clone-type: methodsRecvType := sel.Obj().Type().(*types.Signature).Recv().Type()"): 1,
